@@ -413,7 +413,18 @@ func (w *YW) checkStoreOnce(why string, needContiguous, deferGap bool) (gapSeen 
 		tail, terr = w.St.Tail(ctx)
 		fin = true
 	})
-	if stuck := s.Settle(opBudget, t); len(stuck) > 0 || !fin {
+	stuck := s.Settle(opBudget, t)
+	for n := 0; len(stuck) > 0 && n < 200; n++ {
+		// a long backlog of queued writes behind a stalling disk is not a hang: keep waiting
+		// while the datastore still makes progress
+		before := w.Disk.LogLen()
+		stuck = s.Settle(opBudget, t)
+		if len(stuck) > 0 && w.Disk.LogLen() == before {
+			break
+		}
+		s.Probe("store-oracle-waited-for-backlog")
+	}
+	if len(stuck) > 0 || !fin {
 		if !s.Failed() {
 			s.Violate("hang", map[string]string{"op": "Store.Sync"}, "[%s] store oracle did not finish", why)
 		}
